@@ -851,6 +851,30 @@ def install_more(models):
                 return True if m == "contains" else opt(span_len(sl.s, sl.lo, k))
         return False if m == "contains" else opt(None)
 
+    @R(r"^char::methods::<impl char>::(is_ascii_hexdigit|is_ascii_uppercase|is_ascii_lowercase|is_ascii_punctuation|is_ascii_whitespace|is_ascii_graphic|is_ascii_control|to_ascii_lowercase|to_ascii_uppercase|eq_ignore_ascii_case)$")
+    def _ascii_class(ex, c, a):
+        ch = deref(a[0])
+        m = c.rsplit("::", 1)[1]
+        R_ = {"is_ascii_hexdigit": [(48, 57), (65, 70), (97, 102)], "is_ascii_uppercase": [(65, 90)], "is_ascii_lowercase": [(97, 122)],
+              "is_ascii_punctuation": [(33, 47), (58, 64), (91, 96), (123, 126)], "is_ascii_whitespace": [(9, 10), (12, 13), (32, 32)],
+              "is_ascii_graphic": [(33, 126)], "is_ascii_control": [(0, 31), (127, 127)]}
+        if m in R_:
+            if isinstance(ch, int):
+                return any(lo <= ch <= hi for lo, hi in R_[m])
+            return SB(z3.Or([z3.And(z3.UGE(ch.e, lo), z3.ULE(ch.e, hi)) for lo, hi in R_[m]]))
+        if m in ("to_ascii_lowercase", "to_ascii_uppercase"):
+            lo, hi, d = (65, 90, 32) if m == "to_ascii_lowercase" else (97, 122, -32)
+            if isinstance(ch, int):
+                return ch + d if lo <= ch <= hi else ch
+            return SV(z3.If(z3.And(z3.UGE(ch.e, lo), z3.ULE(ch.e, hi)), ch.e + d, ch.e), 32)
+        other = deref(a[1])
+
+        def low(x):
+            if isinstance(x, int):
+                return z3.BitVecVal(x + 32 if 65 <= x <= 90 else x, 32)
+            return z3.If(z3.And(z3.UGE(x.e, 65), z3.ULE(x.e, 90)), x.e + 32, x.e)
+        return SB(low(ch) == low(other))
+
     @R(r"^Option::<&str>::is_some_and::<.*>$")
     def _is_some_and(ex, c, a):
         o = deref(a[0])
